@@ -470,6 +470,18 @@ def classify(case: str, out: str):
 # ----------------------------------------------------------------------------------------------
 # cases
 
+
+def extra_obligations():
+    """both retry wrappers (`_wrap_sync.wrapped`, `_wrap_async.wrapped`) regenerated from /repo's retries.py as MiniPy terms:
+    Lean re-checks that one iteration of the loop body does what `Retry.go`'s step does (one call; value returned / the same
+    exception object re-raised / attempt + 1 with exactly the prescribed pause events), and the committed induction
+    `Bridge.Retry.refines_of_step` lifts it to: the wrapper = `Retry.run` for every limit, catching, delay shape and outcome
+    sequence"""
+    from harness import core, regen
+
+    return regen.check("retry", core.REPO, core.LEAN)
+
+
 def corpus():
     return [
         # int delay: TypeError on the pinned tree ('int' object is not callable)
